@@ -271,7 +271,7 @@ pub fn c03_stream(cx: &mut Ctx) -> VResult {
         let mut pos = 0;
         let rp = request::Parser::new(&cfg);
         // feed exactly the preamble first so that every round starts the stream parser at the same byte
-        let (sp, _) = handoff(cx, rp, &wire, &mut pos, wire.len(), style, &model::concat_replies(&pm.replies))?;
+        let (sp, _) = handoff(cx, &cfg, rp, &wire, &mut pos, wire.len(), style, &model::concat_replies(&pm.replies))?;
         let mut d = SDriver::new(sp, &wire, pos, wire.len(), &sm, info.role, style);
         d.allow_stuck = true;
         let n = d.streams.len();
